@@ -1,7 +1,7 @@
 (* C07: the case type of the harness-written case files (model vs. implementation on the same histories).
    Definitions only. *)
 From ZV.Common Require Import Base Run.
-From ZV.C07 Require Import Model ModelFive ModelTL ModelTiered ModelSecure.
+From ZV.C07 Require Import Model ModelFive ModelTL ModelTiered ModelSecure ModelMmap.
 Open Scope N_scope.
 
 Inductive xcase :=
@@ -21,7 +21,10 @@ Inductive xcase :=
    (local cache, shared stack, size of the active table) *)
 | XSec (lcache : N) (ops : list sop) (expect : list (option Z))
 (* MemoryPool: max_chunks, history, per allocation: pool hit, serial of the chunk; per deallocation: kept / released *)
-| XMp (max : N) (ops : list mop) (expect : list (option Z)).
+| XMp (max : N) (ops : list mop) (expect : list (option Z))
+(* MemoryMappedAllocator: min_mmap_size, page size, history, per allocation: cache hit, serial, usable size; per
+   deallocation: kept / unmapped *)
+| XMm (min pg : N) (ops : list mmop) (expect : list (option Z)).
 
 Definition xok (x : xcase) : bool :=
   match x with
@@ -38,4 +41,5 @@ Definition xok (x : xcase) : bool :=
   | XTi c ops e => eqb_loz (t_observe c ops) e
   | XSec lc ops e => eqb_loz (s_observe lc ops) e
   | XMp mx ops e => eqb_loz (m_observe mx ops) e
+  | XMm mn pg ops e => eqb_loz (mm_observe mn pg ops) e
   end.
